@@ -61,8 +61,8 @@ theorem notARuleText_total (k : Cls) (s : Str) : ∃ c u, notARuleText k prepare
   exact ⟨_, _, rfl⟩
 
 /-- the round trip the masking layer is meant to have: what leaves the parser is what was written.
-Kept as a checked statement; proved false of the pre-fix masker below (fix-C05j), not yet proved of the fixed
-one (the correspondence check compares `unmask ∘ clean_text ∘ mask` with the implementation on every `PU` case). -/
+Kept as a checked statement; proved false of the pre-fix masker below (fix-C05j) and PROVED of the fixed one in
+`Theorems3.lean` (`mask_roundtrip`, `mask_roundtrip_holds`: for every text whose length fits the `usize` table index). -/
 def mask_roundtrip_full (mask : Str → R (Str × List Str)) : Prop :=
   ∀ s : Str, ∃ m lits, mask s = .ok (m, lits) ∧ unmask lits m = .ok s
 
